@@ -111,6 +111,7 @@ pub fn crash<const N: usize>(mid_finalize: bool, with_shx: bool, max_ops: u32) {
         Err(_) => assert!(durable == 0, "a file with a completed finalize cannot be opened"),
     }
     std::mem::forget(rd);
+    let mut idx_witness = !with_shx;
     if with_shx && shx.plen >= 100 {
         // (Index files cut inside their first header write are refused at open: that is the
         // truncation case of C13, not repeated here.)
@@ -126,8 +127,9 @@ pub fn crash<const N: usize>(mid_finalize: bool, with_shx: bool, max_ops: u32) {
         } else {
             assert!(false, "torn .shx header length is neither the placeholder nor the final value");
         }
-        kani::cover!(hl == 50 && shx.plen > 100, "placeholder index header on the medium, entries (partly) behind it");
+        idx_witness = hl == 50 && shx.plen > 100;
     }
+    kani::cover!(idx_witness, "placeholder index header on the medium, entries (partly) behind it (or no index in this harness)");
     let _ = flushes_after_mid;
     kani::cover!(completed >= 1, "a finalize completed before the cut");
     kani::cover!(completed == 0 && shp.plen > 100, "crash before any finalize completed, records partly on the medium");
